@@ -160,10 +160,12 @@ def parse_defines(clause):
 
 def prepare_attributes(attrs, dyn_attributes, i18n_attributes,
                        ns_attributes, drop_ns):
+    # Note that ``ns_attributes`` has one entry per (namespace, name);
+    # it is not aligned with ``attrs`` when two attributes share one.
     drop = {attribute['name']
-            for attribute, (ns, value) in zip(attrs, ns_attributes)
-            if ns in drop_ns or (
-                ns == XMLNS_NS and
+            for attribute in attrs
+            if attribute['namespace'] in drop_ns or (
+                attribute['namespace'] == XMLNS_NS and
                 attribute['value'] in drop_ns)}
 
     attributes = []
